@@ -2,7 +2,7 @@
    regenerated per run), the zero cases, and the witnesses for letters whose
    case mapping is not one-to-one. *)
 From Coq Require Import List ZArith NArith Bool Lia QArith Sorting.Permutation Floats.
-From Pcfg Require Import Str Multiword Detect Segment SegCorr Scorer DetectProofsStr DetectProofsDrive DetectProofsSimple
+From Pcfg Require Import Str Multiword Detect Segment SegCorr Scorer ScorerCorr DetectProofsStr DetectProofsDrive DetectProofsSimple
      DetectProofsSeg DetectProofsCount DetectProofsPipe DetectProofsInst ScorerProofs.
 From PcfgGen Require Import Consts_gen Unicode_gen.
 Import ListNotations.
@@ -11,18 +11,19 @@ Open Scope Z_scope.
 Definition c_case_ok := case_ok c_isupper c_lower c_upper.
 Definition c_generates := generates c_upper.
 
-(* the scorer's own detector: MultiWordDetector(threshold = 1, min_len = 4) *)
-Definition s_threshold : Z := 1.
-Definition s_min_len : Z := 4.
 Definition scorer_mw_Q (rs : rsQ) : mwmap :=
-  scorer_mw Q 0%Q (fun a b => match Qcompare a b with Lt => true | _ => false end) c_isalpha c_lower s_threshold s_min_len c_max_len rs.
+  scorer_mw Q 0%Q (fun a b => match Qcompare a b with Lt => true | _ => false end) scorer_mw_skip
+            c_isalpha c_lower s_threshold s_min_len s_max_len rs.
+
+Lemma side_scorer_min_len : 1 <= s_min_len.
+Proof. vm_compute. discriminate. Qed.
 
 Theorem promise_c : forall rs m s cat p, s <> [] ->
-  scoreQ (parse_c m) rs s = Some (cat, p) -> ~ (p == 0)%Q -> c_case_ok s -> c_generates rs s p.
+  scoreQ (parse_s m) rs s = Some (cat, p) -> ~ (p == 0)%Q -> c_case_ok s -> c_generates rs s p.
 Proof.
-  intros rs m s cat p Hne. unfold parse_c, parse_gen. rewrite side_lower_aligned.
+  intros rs m s cat p Hne. unfold parse_s. rewrite side_lower_aligned.
   apply (promise c_isalpha c_isdigit c_isupper c_lower c_upper c_kbs kb_false_positive_words c_min_run tld_list
-           year_prefixes context_strings c_threshold c_min_len c_max_len side_min_len side_year_prefixes
+           year_prefixes context_strings s_threshold s_min_len s_max_len side_scorer_min_len side_year_prefixes
            side_tlds_nonempty side_min_run rs m s cat p Hne). apply good_all.
 Qed.
 
@@ -79,7 +80,7 @@ Definition rs_sharp : rsQ :=
 Definition w_sharp : str := [7838%N].
 
 Lemma refuted_case_sharp_s :
-  scoreQ (parse_c (scorer_mw_Q rs_sharp)) rs_sharp w_sharp = Some (CatOther, (1 * 1 * (1#2) * 1)%Q) /\
+  scoreQ (parse_s (scorer_mw_Q rs_sharp)) rs_sharp w_sharp = Some (CatOther, (1 * 1 * (1#2) * 1)%Q) /\
   ~ c_case_ok w_sharp /\ forall p, ~ c_generates rs_sharp w_sharp p.
 Proof.
   split; [vm_compute; reflexivity|]. split.
@@ -90,4 +91,19 @@ Proof.
     simpl in He, Hem. injection He as <-. injection Hem as <-.
     destruct Hw as [Hw|[]]. injection Hw as <- <-.
     destruct Hm as [Hm|[Hm|[]]]; injection Hm as <- <-; vm_compute in Et; discriminate.
+Qed.
+
+(* the hypotheses of the promise are satisfiable: the lower-case sharp s under
+   the same ruleset *)
+Definition w_sharp_lower : str := [223%N].
+Lemma demo_promise :
+  scoreQ (parse_s (scorer_mw_Q rs_sharp)) rs_sharp w_sharp_lower = Some (CatOther, (1 * 1 * (1#2) * 1)%Q) /\
+  c_case_ok w_sharp_lower /\ c_generates rs_sharp w_sharp_lower (1 * 1 * (1#2) * 1)%Q.
+Proof.
+  assert (E : scoreQ (parse_s (scorer_mw_Q rs_sharp)) rs_sharp w_sharp_lower = Some (CatOther, (1 * 1 * (1#2) * 1)%Q))
+    by (vm_compute; reflexivity).
+  assert (C : c_case_ok w_sharp_lower) by (constructor; [vm_compute; reflexivity|constructor]).
+  split; [exact E|]. split; [exact C|].
+  apply (promise_c rs_sharp (scorer_mw_Q rs_sharp) w_sharp_lower CatOther); [discriminate|exact E| |exact C].
+  intros H. vm_compute in H. discriminate.
 Qed.
